@@ -177,7 +177,7 @@ REF_PROPS = {
     "C01": dict(alphabet=["bin", "scal", "sum", "matmul", "view", "square", "cum", "act", "ein"], profiles=["c01"],
                 clauses=["val", "sh", "const", "grad", "cr", "np_share"], depth=(2, 3), cases=[1, 2, 3, 4, 5, 6],
                 quick_n=700, thorough_n=20000),
-    "C04": dict(alphabet=["scal", "view", "setitem", "aug"], profiles=["c04"],
+    "C04": dict(deep=True, alphabet=["scal", "view", "setitem", "aug"], profiles=["c04"],
                 clauses=["val", "sh", "const", "share", "base", "np_share"], depth=(2, 3), cases=[1, 2, 3, 4, 5, 6, 7, 8],
                 quick_n=900, thorough_n=30000),
     "C05": dict(alphabet=["bin", "scal", "sum", "view", "setitem", "aug"], profiles=["c05"],
@@ -274,8 +274,14 @@ def check_ref_property(prop: str, tier: str, seed: int) -> int:
     out = core.Outcome(prop, tier, seed, "model_checking")
     quick = tier == "quick"
     try:
-        stage_replay(out, max_stmts=cfg["depth"][0] if quick else cfg["depth"][1], max_h=5,
-                     cases=cfg["cases"], alphabet=cfg["alphabet"])
+        # spec -> code: every program of <= depth[0] statements (exhaustive); thorough adds either every program of
+        # <= depth[1] statements (where that is tractable: cfg["deep"]) or seeded TLC simulations of longer programs
+        stage_replay(out, max_stmts=cfg["depth"][0], max_h=5, cases=cfg["cases"], alphabet=cfg["alphabet"])
+        if not quick:
+            if cfg.get("deep"):
+                stage_replay(out, max_stmts=cfg["depth"][1], max_h=5, cases=cfg["cases"], alphabet=cfg["alphabet"])
+            else:
+                stage_replay(out, max_stmts=5, max_h=7, cases=cfg["cases"], alphabet=cfg["alphabet"], simulate=(1200, 12))
         for prof in cfg["profiles"]:
             stage_traces(out, profile=prof, n=cfg["quick_n"] if quick else cfg["thorough_n"], clauses=cfg["clauses"])
         selftest_binding(out, cfg["profiles"][0], cfg["clauses"])
@@ -445,8 +451,9 @@ MG_ALPHA_A = '{"newarr", "npview", "freeze", "wrap", "op", "view", "fail", "clea
 MG_ALPHA_B = '{"newarr", "npview", "wrap", "op", "opout", "failout", "clear", "dropt", "dropa"}'
 MG_ALPHA_C = '{"newarr", "freeze", "wrap", "op", "inplace", "clear", "dropt", "dropa"}'
 MG_ALPHA_C_ONLY = '{"newarr", "freeze", "wrap", "inplace", "clear", "dropt", "dropa"}'   # one statement deeper
-MG_ALPHABET_SIM = ('{"newarr", "npview", "freeze", "wrap", "op", "opout", "inplace", "view", "fail", "failout", "clear", '
-                   '"dropt", "dropa"}')
+MG_ALPHA_D = '{"newarr", "wrap", "view", "op", "inplacefam", "clear", "dropt"}'     # in-place updates inside view families
+MG_ALPHABET_SIM = ('{"newarr", "npview", "freeze", "wrap", "op", "opout", "inplace", "inplacefam", "view", "fail", "failout", '
+                   '"clear", "dropt", "dropa"}')
 
 
 def _mg_cfg(path, na, nt, no, maxlen, emit, invariants, alphabet=None):
@@ -556,7 +563,7 @@ def check_C08(tier: str, seed: int) -> int:
         for lab, alpha in (("A: views, freezes, failures", MG_ALPHA_A), ("B: out= targets, failing out=", MG_ALPHA_B),
                            ("C: in-place tensor updates", MG_ALPHA_C)):
             _mg_cfg(cfg, na, nt, no, 0, False, ["Safe", "Restored", "NoLeak", "CountersSane"], alpha)
-            info, o, violated = core.design_run(out, spec, cfg, workers=16, timeout=3000,
+            info, o, violated = core.design_run(out, spec, cfg, workers=16, timeout=3000, coverage=False,
                                                 label=f"MemGuard exhaustive NA={na} NT={nt} NO={no} alphabet {lab}")
             if violated:
                 out.machinery("MemGuard.tla: TLC found a design-level violation outside the listed known findings; it must "
@@ -568,7 +575,7 @@ def check_C08(tier: str, seed: int) -> int:
             cfg2 = os.path.join(scratch, "mc2.cfg")
             _mg_cfg(cfg2, 4, 5, 2, 0, False, ["Safe", "Restored", "NoLeak", "CountersSane"], MG_ALPHA_A)
             try:
-                info2, o2, v2 = core.design_run(out, spec, cfg2, workers=16, timeout=1500,
+                info2, o2, v2 = core.design_run(out, spec, cfg2, workers=16, timeout=1500, coverage=False,
                                                 label="MemGuard NA=4 NT=5 NO=2 (time-bounded)")
                 if v2:
                     out.machinery("MemGuard.tla (larger bound): design-level violation: " + o2[o2.find("Error:"):][:1500])
@@ -596,11 +603,30 @@ def check_C08(tier: str, seed: int) -> int:
                 out.machinery(f"MemGuard emission failed rc={rc} bad={bad} n={len(bx)}: {o3x[-600:]}")
             behs += bx
             o3 = o3x
+        # (3b) in-place updates inside view families (base with registered views / a registered view as target): more
+        # objects per statement, so the bounded-depth run also carries the invariants (every state of depth <= maxlen)
+        _mg_cfg(cfg3, 7, 9, 6, maxlen, True, ["Safe", "Restored", "NoLeak", "CountersSane", "Emit"], MG_ALPHA_D)
+        rc, o3d, wall = tlc.run_tlc(spec, cfg3, workers=1, timeout=3000, heap="8g")
+        bx, bad = replay.parse_behaviours(o3d)
+        if rc != 0 or bad or not bx:
+            j = o3d.find("Error:")
+            out.machinery(f"MemGuard family emission failed rc={rc} bad={bad} n={len(bx)}: {o3d[j:j + 800] if j >= 0 else o3d[-600:]}")
+        bx = [b for b in bx if any(e["ev"]["k"] == "inplacefam" for e in b)]
+        behs += bx
+        st3d = tlc.parse_stats(o3d)
+        if st3d:
+            out.coverage["states"] += st3d["distinct"]
+            out.coverage["transitions"] += st3d["generated"]
+        out.coverage.setdefault("tlc_runs", []).append(
+            {"label": f"MemGuard in-place inside view families, all states of depth <= {maxlen} (NA=7 NT=9 NO=6), invariants on",
+             "distinct_states": st3d["distinct"] if st3d else None, "behaviours_with_family_update": len(bx)})
         # (4) long random behaviours (simulation) replayed as well
         cfg4 = os.path.join(scratch, "sim.cfg")
-        _mg_cfg(cfg4, 4, 6, 3, 14, True, ["Emit"], MG_ALPHABET_SIM)
-        rc4, o4, _ = tlc.run_tlc(spec, cfg4, workers=1, timeout=1200,
-                                 extra=("-simulate", f"num={400 if quick else 6000}", "-depth", "15", "-seed", str(seed + 1)))
+        # (TLC's simulator enumerates every successor of every visited state: cost grows with the object budget)
+        simc = (5, 7, 4, 150) if quick else (6, 8, 5, 700)
+        _mg_cfg(cfg4, simc[0], simc[1], simc[2], 14, True, ["Emit"], MG_ALPHABET_SIM)
+        rc4, o4, _ = tlc.run_tlc(spec, cfg4, workers=1, timeout=3000,
+                                 extra=("-simulate", f"num={simc[3]}", "-depth", "15", "-seed", str(seed + 1)))
         behs4, bad4 = replay.parse_behaviours(o4)
         if bad4:
             out.machinery(f"{bad4} unparsable simulated behaviours")
@@ -608,10 +634,16 @@ def check_C08(tier: str, seed: int) -> int:
         nbad = 0
         allb = behs + behs4
         out.judged += len(allb)
-        for b in allb:
-            r = memguard.compare(b)
-            if r is None:
-                continue
+        # replay on real arrays / tensors / dels, spread over worker processes
+        import multiprocessing
+
+        nchunk = max(1, min(64, len(allb) // 2000 + 1))
+        size = (len(allb) + nchunk - 1) // nchunk
+        chunks = [allb[k:k + size] for k in range(0, len(allb), size)]
+        with multiprocessing.get_context("fork").Pool(min(16, len(chunks))) as pool:
+            per_chunk = pool.map(memguard.compare_many, chunks)
+        disagreeing = [(chunks[ci][k], r) for ci, res in enumerate(per_chunk) for k, r in res]
+        for b, r in disagreeing:
             i, field, pred, obs, drift_only = r
             if drift_only:
                 drift += 1
@@ -643,8 +675,8 @@ def check_C08(tier: str, seed: int) -> int:
     finally:
         shutil.rmtree(scratch, ignore_errors=True)
     out.assumptions += ["CPython reference counting (gc disabled during replay); arrays reachable only through references the "
-                        "harness holds; in-place updates are modelled for owner tensors without registered views (views under in-place "
-                        "updates are covered by Ref.tla's traces, which also watch the lock tables through the `leak` clause)"]
+                        "harness holds; in-place updates are modelled for owners and for families of a base with direct registered views "
+                        "(views of views under in-place updates are covered by Ref.tla's traces only)"]
     cov = out.coverage
     cov["rule"] = ("MemGuard.tla exhaustive state graph (all orders of drops, clears, failures) at the stated bound; every "
                    "behaviour of the stated length plus seeded simulations replayed on real arrays; distinct = distinct TLC states")
